@@ -3,6 +3,7 @@ mod c07;
 mod c08;
 mod c12;
 mod c13;
+mod c14;
 mod c15;
 mod c16a;
 pub mod expansion;
@@ -17,6 +18,7 @@ fn main() {
         "C08" => c08::run(ctx),
         "C12" => c12::run(ctx),
         "C13" => c13::run(ctx),
+        "C14" => c14::run(ctx),
         "C15" => c15::run(ctx),
         "C16" => c16a::run(ctx),
         other => {
